@@ -45,6 +45,7 @@ class Contract:
         self.assume_class_inv = kw.pop("inv", True)
         self.tags = kw.pop("tags", ())
         self.bitvec = kw.pop("bitvec", None)
+        self.merge_ifs = kw.pop("merge_ifs", False)
         self.replay = kw.pop("replay", None)
         self.external_overrides = kw.pop("externals", {})
         self.findings = kw.pop("findings", {})      # {finding id: pre-state clause delimiting the known failing region}
